@@ -51,8 +51,9 @@ def main():
         dst = f"/verif/seeded/{prop}-{name}"
         os.makedirs(dst, exist_ok=True)
         for f in ("patch.diff", "demo.py", "notes.md"):
-            if os.path.exists(os.path.join(sdir, f)):
-                shutil.copy(os.path.join(sdir, f), os.path.join(dst, f))
+            src = os.path.join(sdir, f)
+            if os.path.exists(src) and os.path.abspath(src) != os.path.abspath(os.path.join(dst, f)):
+                shutil.copy(src, os.path.join(dst, f))
         json.dump(meta, open(os.path.join(dst, "meta.json"), "w"), indent=1)
         print(json.dumps({k: meta[k] for k in ("valid_seed", "caught", "caught_with_failing_input")}), meta["check"]["summary"][-200:])
     finally:
